@@ -44,3 +44,9 @@ PROPS["C03"] = dict(pkg="c03", shards=16, level="exploration",
     level_text="Exploration: all flag combinations x supplied subsets x three struct mappings for objects with 1-2 properties (exhaustive) and a reduced grid for 3; generated nested objects / one-of schemas with valid inputs and structural raw mutations; every case judged accept/reject and by value against the reference interpreter.",
     level_note="Trusts harness/model for presence rules, defaulting (incl. the documented sub-object default propagation for absent by-value members), disabled-in-use on the Unserialize path only, shorthand and discriminator dispatch; struct-mapped objects obey the documented precondition for fields that cannot express absence; own defaults on by-value members whose sub-object also declares defaults are not generated (the statement does not say how the two merge).",
     assumptions=["native presence = map key present / pointer field non-nil / value field always present unless treat-empty-as-default and zero"])
+
+PROPS["C04"] = dict(pkg="c04", shards=16, level="exploration",
+    technique="property-based testing (rapid) with fault-style value substitution, executed in supervised worker processes; oracle = totality (value or error; panic, fatal error or no return is a violation)",
+    level_text="Exploration: generated schemas of every kind x hostile values from the decoder domain and from arbitrary Go values substituted at schema-directed positions, genuine native values damaged by reflection, and deep nesting; every operation (Unserialize, data-mode ValidateCompatibility, Validate, Serialize) runs in a supervised worker so that panics, stack exhaustion and hangs are observed and attributed.",
+    level_note="Cyclic Go values are excluded (no finite description); depth is bounded by what the decoders can produce (10000); a hang is only reported after a second attempt in a fresh worker with three times the deadline; one recorded known finding (single-property self-referential object + shorthand) is excluded from generation and exercised by a dedicated case.",
+    cap_s={"quick": 900, "thorough": 3000})
